@@ -69,6 +69,9 @@ def units(tier, seed):
     for N in (64, 128) if q else (64, 128, 256, 512, 1024):
         for k in sorted(rng.sample(range(1, N), 3 if q else 8)):
             cfgs.append((N, k))
+    # deep trees at very high and very low rate: the regime where repeated check-node products underflow
+    cfgs += [(512, 454), (1024, 1000)] if q else [(256, 250), (512, 454), (512, 500), (1024, 1000), (1024, 1023), (1024, 900), (1024, 1), (1024, 12)]
+    cfgs = list(dict.fromkeys(cfgs))
     for N, k in cfgs:
         out.append({"unit": f"polar:N={N},k={k}", "kind": "code", "N": N, "k": k, "cost": 1 + N / 32})
     for i in range(4 if q else 16):
